@@ -452,7 +452,11 @@ func (c *channel) processCommand(ctx context.Context, sender RequestCommandSende
 
 	defer func() {
 		c.processingCmdsMu.Lock()
-		delete(c.processingCmds, reqCmd.ID)
+		// Only this call's own registration: once the response was matched the identifier is free
+		// again, and another call may have registered it before this one returns.
+		if c.processingCmds[reqCmd.ID] == respChan {
+			delete(c.processingCmds, reqCmd.ID)
+		}
 		c.processingCmdsMu.Unlock()
 	}()
 
